@@ -37,6 +37,9 @@ def run(ctx: Ctx):
     from .common import generic_lints
 
     generic_lints(ctx)
+    from .common import type_resolution_table
+
+    type_resolution_table(ctx)
     from .common import dependency_footprints
 
     dependency_footprints(ctx)
